@@ -266,6 +266,25 @@ func Parse(raw []byte) (*OneCRL, error) {
 
 // Check - Given a parsed OneCRL, check if a given cert is present
 func (c *OneCRL) Check(cert *x509.Certificate) *Entry {
+	// A pubKeyHash record holds the SHA-256 of the SubjectPublicKeyInfo as it
+	// stands in the certificate. A parsed certificate is matched on exactly
+	// those bytes: its key may be one that MarshalPKIXPublicKey cannot
+	// re-encode (DSA, an unknown algorithm) and the hash of nothing matches no
+	// record. The loop below remains for certificates that were not parsed.
+	if len(cert.RawSubjectPublicKeyInfo) > 0 {
+		rawHash := sha256.Sum256(cert.RawSubjectPublicKeyInfo)
+		for _, blocked := range c.Blocked {
+			if bytes.Equal(blocked.RawSubject, cert.RawSubject) && bytes.Equal(blocked.PubKeyHash, rawHash[:]) {
+				return &Entry{
+					SubjectAndPublicKey: &SubjectAndPublicKey{
+						RawSubject: cert.RawSubject,
+						Subject:    &cert.Subject,
+						PubKeyHash: rawHash[:],
+					},
+				}
+			}
+		}
+	}
 	// check for BlockedSPKIs first
 	for _, blocked := range c.Blocked {
 		if bytes.Equal(blocked.RawSubject, cert.RawSubject) {
